@@ -94,10 +94,17 @@ def ser_rule(rule, pipeline=None):
                       "applied": sorted(rule.applied_processing_items)}}
 
 
-def convert(rule, pipeline):
+def convert(rule, pipeline, before=()):
+    """query of rule through one backend object that converted the rules `before` first"""
     B = backend_class()
     try:
-        qs = B(pipeline).convert_rule(rule)
+        backend = B(pipeline)
+        for r0 in before:
+            try:
+                backend.convert_rule(r0)
+            except Exception:  # noqa
+                pass
+        qs = backend.convert_rule(rule)
     except NotImplementedError as e:
         return {"unsupported": str(e)[:100]}
     except Exception as e:  # noqa
@@ -117,6 +124,10 @@ def run_tr(case):
     # 1. the pipeline applied to the rule
     pipeline = ProcessingPipeline.from_dict(spec.denull(case["pipeline"]))
     try:
+        # "pre": rule documents that went through the same pipeline object before (a pipeline is applied to rule
+        # after rule; nothing of an earlier rule may show in a later one)
+        for pre in case.get("pre", []):
+            pipeline.apply(SigmaRule.from_dict(copy.deepcopy(pre)))
         pipeline.apply(rule)
         out["rout"] = ser_rule(rule, pipeline)
     except Exception as e:  # noqa
@@ -143,7 +154,8 @@ def run_tr(case):
                                  "ok": [strip(x) for x in loaded] == [strip(x) for x in got_items]})
     # 2. conversion of rule + pipeline through the API
     out["q1"] = convert(SigmaRule.from_dict(copy.deepcopy(case["rule"])),
-                        ProcessingPipeline.from_dict(spec.denull(case["pipeline"])))
+                        ProcessingPipeline.from_dict(spec.denull(case["pipeline"])),
+                        [SigmaRule.from_dict(copy.deepcopy(pre)) for pre in case.get("pre", [])])
     # 3. the hand-rewritten document (specification code, independent of sigma), converted without pipeline
     rw = spec.rewrite_case(case, rin, added, out["rout"])
     out["rw"] = rw["docs"]
